@@ -91,6 +91,19 @@ structure Reaction (σ α : Type) where
 section Stoich
 variable {σ α : Type} [DecidableEq σ]
 
+/-- the accumulation of `chempy.util.parsing._parse_multiplicity` (parsing.py:421-455) over the terms written on one side of
+    a reaction string, each already split into (coefficient, key) — a bare `X` is `(1, X)`, `n X` / `n * X` is `(n, X)`:
+    `if key not in result: result[key] = 0` / `result[key] += n`.  Repeated terms ADD UP.  (The text level — splitting on
+    `" + "`, `"->"`, parentheses for inactive terms — is C12's `Model/ReactionText.lean`; here only the multiset semantics.) -/
+def mergeTerms (terms : List (Nat × σ)) : List (σ × Nat) :=
+  terms.foldl (fun d t => dacc d t.2 t.1) []
+
+/-- the reaction denoted by the written terms of a reaction string: active / parenthesised (inactive) terms of the left and the
+    right side, merged side by side and kind by kind as `to_reaction` does (parsing.py:538-560) -/
+def reactionOfTerms (reac prod inactReac inactProd : List (Nat × σ)) (param : α) : Reaction σ α :=
+  { reac := mergeTerms reac, prod := mergeTerms prod, inactReac := mergeTerms inactReac, inactProd := mergeTerms inactProd,
+    param := param }
+
 /-- `d.get(k, 0)` on a stoichiometry dictionary -/
 def coef (d : List (σ × Nat)) (k : σ) : Nat := dgetD d k 0
 
